@@ -2,7 +2,9 @@
 
 Deciding oracles work on the rendered OUTPUT alone: the tag is rendered between sentinels by the real
 engine and compared with vlib/c15_util.predict (missing -> null -> fmt= -> C format -> the modifiers,
-each once, in ONE order -> size/etc; written from the DT_Var docstring and the statement), and every
+each once, in ONE order -> size/etc; written from the DT_Var docstring and the statement; the same
+pipeline whatever the number of options, the spelling of the tag, the C format and the type of the value:
+part_optcount, part_nulltower), and every
 written order of a modifier set must print what the canonical order prints (all ordered pairs on values
 where the two stages do not commute, all orders of subsets <= 4, seeded larger ones); url round trips,
 the sql_quote postcondition and the truncation clauses besides.
@@ -27,7 +29,17 @@ RULE = ('one dtml-var tag per case, rendered by the engine and predicted by an i
         'written orders of every subset of size <= 4 (sampled at size 4 in the quick tier), fmt= '
         '(methods, named formats, %-formats) and EPFS C formats, size 0..len+2 x etc over all strings '
         'of {a,blank} up to a length bound, null=/missing= grids, url round trips, seeded random '
-        'combinations; distinct = distinct (syntax, name form, written option list, value, C format); '
+        'combinations; OPTION COUNT: every option set of size 0, 1, 2 over the 12 modifiers + fmt (method, '
+        'named format, %-format) / null / missing / size / etc / url, both written orders, under every one '
+        'of 26 EPFS C formats in the spellings %(x ..)F, %(var x ..)F, %(var expr=".." ..)F, %(var name=x ..)F '
+        'and in 8 HTML spellings (dtml, ssi, entity; name, name=, expr=, bare "expr"), plus the two documented '
+        'fast forms (bare tag, html_quote alone) on every pool value in every spelling; NULL TOWER: null= '
+        '(first / last / between the other options; valueless; all spellings and C formats) on zeros of every '
+        'numeric type (int, float, -0.0, Decimal 0 / 0.00 / -0 / 0E+3, Fraction, complex, int / float '
+        'subclasses, a user-defined quantity equal to 0), on every kind of empty / false non-number (str and '
+        'str subclass, bytes, bytearray, list, tuple, dict, set, frozenset, range, objects false by __len__ '
+        'or __bool__) and on non-zero neighbours, each followed by fmt= / C format / modifiers / size; '
+        'missing= on defined but false / null / zero values; the value pool includes that tower; distinct = distinct (syntax, name form, written option list, value, C format); '
         'non-trivial = the demanded text differs from the plain str() of the value (an option is '
         'effective) or a missing=/null= replacement happens')
 ASSUMPTIONS = [
@@ -44,6 +56,16 @@ ASSUMPTIONS = [
     'non-ASCII bytes (C19), TaintedString (C04), restructured-text',
     'structured-text: only its position in the pipeline is judged (stage result taken from the '
     'engine function itself)',
+    '"false but not 0" is read with Python truth and equality: v is null iff v is None or (not v and '
+    'v != 0); so every numeric zero (Decimal, Fraction, complex, subclasses, an object whose __eq__ says '
+    'it equals 0) is a value, every empty container / false object not equal to 0 is null; bool null-ness '
+    'stays unjudged',
+    'valueless spellings of valued options (<dtml-var x null>, &dtml.null-x;): the replacement / '
+    'truncation text is not stated, so only renders where no replacement / truncation is due are judged',
+    'the C format of the EPFS syntax is a pipeline stage whatever options are written (docstring: "a '
+    'C-style format is specified after the closing parenthesis"); a C format that raises for the value '
+    '(model: the same % operation) is not judged; Decimal / Fraction dollar formats are not judged '
+    '(rounding of a non-float is not stated)',
 ]
 SHARD_TIMEOUT = {'quick': 600, 'thorough': 3000}
 NSHARDS = {'quick': 16, 'thorough': 32}
@@ -68,6 +90,16 @@ VALUES = ([RICH1, RICH2] + [['str', s] for s in STRS] +
           [['float', f] for f in (0.0, 3.14159, 1234567.891, -0.5, 1e20, 2.5e-07, 1234.56789)] +
           [['none'], ['list', []], ['dict', {}], ['list', [1, 2, 3]], ['dict', {'a_b': 1}],
            ['obj'], ['falsy']])
+# the rest of the numeric tower, subclasses of the basic types, more empty containers, objects that
+# are false without being empty: zeros are VALUES (never null), empties / false objects are null
+TOWER = [['decimal', '0'], ['decimal', '0.00'], ['decimal', '-0'], ['decimal', '1.50'],
+         ['decimal', '1234567.25'], ['fraction', [0, 3]], ['fraction', [1, 3]], ['fraction', [7654321, 2]],
+         ['complex', [0, 0]], ['complex', [1, 2]], ['bool', False], ['bool', True],
+         ['intsub', 0], ['intsub', 1234567], ['floatsub', 0.0], ['floatsub', 2.5], ['float', -0.0],
+         ['float', 'nan'], ['float', 'inf'], ['strsub', ''], ['strsub', 'sub_Text %41'],
+         ['tuple', []], ['tuple', [1, 2]], ['set', []], ['frozenset', []], ['set', [7]],
+         ['range', 0], ['range', 3], ['bytearray', ''], ['zero'], ['unset']]
+VALUES = VALUES + TOWER
 PAIR_POOL = [RICH1[1], RICH2[1]] + STRS + [
     'A<b>&"c" D', 'x_Y z', 'AB\ncd', '%4a_%4A', 'a%5Fb', 'a%0Ab c', 'a%27b', 'a%26b%3C', '%31%32%33%34',
     '1234567%2E5', "a'b C", 'a_b\nc', '12_34', 'a b\r\nc', 'A+B', 'a%2Bb', '%', 'a&b_c', '1234 A',
@@ -99,13 +131,15 @@ def dedupe(names):
 def mkcase(value, opts, syntax='dtml', form='name', cfmt='s', **extra):
     if syntax == 'ent' and not (opts and all(v is None for n, v in opts) and form == 'name'):
         syntax = 'dtml'
-    if syntax == 'epfs':
+    var_prefix = syntax == 'epfs' and bool(extra.get('var_prefix'))
+    if syntax == 'epfs' and not var_prefix:
         form = 'name'
     if syntax == 'ent':
         form = 'name'
     if syntax != 'epfs':
         cfmt = 's'
-    if syntax in ('epfs', 'ent'):
+        extra.pop('var_prefix', None)
+    if syntax == 'ent' or (syntax == 'epfs' and not var_prefix):
         extra['name_attr'] = False
     c = {'syntax': syntax, 'form': form, 'value': value,
          'opts': [[n, v] for n, v in opts], 'cfmt': cfmt}
@@ -449,8 +483,8 @@ class Env:
     def evaluate(self, case, part='?'):
         """Render one case on the engine, judge it; returns the observed text (or ('!', exc name))."""
         ctx = self.ctx
-        desc = (case['syntax'], case['form'], tuple(map(tuple, case['opts'])),
-                repr(case['value']), case.get('cfmt', 's'))
+        desc = (case['syntax'], case['form'] + ('/var' if case.get('var_prefix') else ''),
+                tuple(map(tuple, case['opts'])), repr(case['value']), case.get('cfmt', 's'))
         try:
             src, tmpl = self.compile(case)
         except Exception as e:
@@ -733,11 +767,28 @@ FMT_BY_KIND = {
     'obj': ['Day', 'amount', 'code', '%s', 'collection-length'],
     'falsy': ['Day', 'amount', 'collection-length'],
     'none': ['%s', 'whole-dollars', 'collection-length'],
+    'decimal': ['copy_abs', 'is_zero', 'to_integral_value', 'comma-numeric', 'url-quote', '%s', '%.2f', '%d',
+                '%10.3f|', 'whole-dollars'],
+    'fraction': ['__abs__', 'is_integer', 'comma-numeric', '%s', '%.3f', 'url-quote-plus'],
+    'complex': ['conjugate', '__abs__', '%s', 'comma-numeric', 'html-quote'],
+    'bool': ['%s', '%d', 'bit_length', 'comma-numeric', 'whole-dollars'],
+    'intsub': ['whole-dollars', 'dollars-and-cents-with-commas', 'comma-numeric', 'bit_length', '%d', '%05d'],
+    'floatsub': ['dollars-and-cents', 'comma-numeric', 'is_integer', '%.2f', '%g'],
+    'strsub': ['upper', 'strip', 'collection-length', 'url-quote', '%s', '%5s|'],
+    'tuple': ['collection-length', '__len__'],
+    'set': ['collection-length', 'copy', '%s'],
+    'frozenset': ['collection-length', '%s'],
+    'range': ['collection-length', '%s', '__len__'],
+    'bytearray': ['collection-length', '%s'],
+    'zero': ['Day', 'amount', 'code', '%s'],
+    'unset': ['Day', 'amount', '%s'],
 }
 FMT_EXTRAS = [[], [('upper', None)], [('thousands_commas', None)],
               [('spacify', None), ('size', '6')], [('null', 'N')],
               [('url_unquote', None), ('lower', None)], [('html_quote', None), ('size', '5'), ('etc', '')]]
 CFMTS = ['s', 'd', 'f', '10.2f', '.3s', '5d', 'e', 'x', '12s', '.0f', 'i', 'r', '08.3f', 'g']
+# every C format of the EPFS surface syntax the option-count part crosses with the option sets
+CFMTS_ALL = CFMTS + ['.2f', '05d', '6s', '3d', 'o', '.1f', 'X', 'E', '9.4s', 'a', 'c', 'G']
 
 
 def part_fmt(env):
@@ -846,11 +897,15 @@ def part_nullmissing(env):
                     opts = opts[::-1]
                 env.evaluate(mkcase(['undefined'], opts, syntax=('dtml', 'ssi', 'epfs')[i % 3], quote=True),
                              'missing')
-                # a defined value ignores missing=
+                # a defined value ignores missing=, however false / null / zero it is
                 env.evaluate(mkcase(['str', 'def_ined'], opts, quote=True), 'missing-unused')
+                dv = DEFINED_FALSE[i % len(DEFINED_FALSE)]
+                env.evaluate(mkcase(dv, opts, syntax=('dtml', 'epfs', 'ssi')[i % 3], quote=True),
+                             'missing-unused-false')
+                ctx.table('missing= with a defined value', kind_of(dv))
     nullish = [['none'], ['str', ''], ['list', []], ['dict', {}], ['tuple', []], ['bytes', ''], ['falsy'],
                ['int', 0], ['float', 0.0], ['str', 'a_b'], ['list', [0]], ['int', 5], ['str', '0'], ['str', ' '],
-               ['obj']]
+               ['obj']] + TOWER
     for v in nullish:
         for t in texts:
             for extra in extras:
@@ -865,6 +920,160 @@ def part_nullmissing(env):
                 env.evaluate(mkcase(v, opts, syntax=('dtml', 'ssi', 'epfs')[i % 3], quote=True,
                                     form=('name', 'expr')[i % 5 == 0]), 'null')
                 ctx.table('null: value kind', kind_of(v))
+
+
+DEFINED_FALSE = [['none'], ['str', ''], ['int', 0], ['float', 0.0], ['list', []], ['dict', {}], ['tuple', []],
+                 ['falsy'], ['bytes', ''], ['decimal', '0.00'], ['fraction', [0, 1]], ['complex', [0, 0]],
+                 ['bool', False], ['zero'], ['unset'], ['set', []], ['strsub', '']]
+
+# zeros of every numeric type (values, never null) and their null / non-null neighbours
+ZEROS = [['int', 0], ['float', 0.0], ['float', -0.0], ['decimal', '0'], ['decimal', '0.00'], ['decimal', '-0'],
+         ['decimal', '0.0000'], ['decimal', '0E+3'], ['fraction', [0, 1]], ['fraction', [0, 3]],
+         ['complex', [0, 0]], ['complex', [-0.0, 0]], ['intsub', 0], ['floatsub', 0.0], ['zero']]
+NULLS = [['none'], ['str', ''], ['strsub', ''], ['bytes', ''], ['bytearray', ''], ['list', []], ['tuple', []],
+         ['dict', {}], ['set', []], ['frozenset', []], ['range', 0], ['falsy'], ['unset']]
+NONNULL = [['decimal', '1.50'], ['decimal', '-0.01'], ['fraction', [1, 3]], ['complex', [0, 1]], ['float', 'nan'],
+           ['float', 1e-300], ['intsub', 5], ['floatsub', -2.5], ['str', '0'], ['str', ' '], ['list', [0]],
+           ['tuple', [None]], ['range', 2], ['set', [0]], ['bytearray', '0'], ['obj'], ['int', -1]]
+NULL_REST = [[], [('upper', None)], [('fmt', '%.2f')], [('fmt', 'dollars-and-cents')], [('size', '3'), ('etc', '')],
+             [('thousands_commas', None), ('html_quote', None)], [('fmt', '%s|'), ('spacify', None), ('size', '40')],
+             [('missing', 'M')], [('url_quote', None)]]
+NULL_CFMTS = ['s', '.1f', 'd', '6s', 'r', 'e']
+
+
+def part_nulltower(env):
+    """null= on the whole numeric tower: a zero of ANY numeric type is a value ("false but not 0" is the
+    null test) and goes on through fmt=, the C format, the modifiers and size; every empty container /
+    false non-number is null; non-zero neighbours are values.  Every spelling of the tag: dtml, ssi,
+    entity (valueless null), EPFS with a C format, expr= forms; null= first, last, between the others."""
+    ctx = env.ctx
+    texts = ['n/a', '', '0', 'NULL_x %41']
+    i = 0
+    for group, vals in (('zero', ZEROS), ('null', NULLS), ('non-null', NONNULL)):
+        for v in vals:
+            for ri, rest in enumerate(NULL_REST):
+                for ti, t in enumerate(texts):
+                    i += 1
+                    if i % ctx.nshards != ctx.shard:
+                        continue
+                    if ctx.tier == 'quick' and ri and (i // ctx.nshards + ti) % 2:
+                        continue
+                    pos = (i // 3) % (len(rest) + 1)
+                    opts = rest[:pos] + [('null', t)] + rest[pos:]
+                    sel = i % 7
+                    if sel == 0:
+                        case = mkcase(v, opts, syntax='ssi', quote=True)
+                    elif sel == 1:
+                        case = mkcase(v, opts, form='expr', quote=True, bare_expr=bool(i % 2))
+                    elif sel == 2:
+                        case = mkcase(v, opts, syntax='epfs', quote=True, cfmt=NULL_CFMTS[(i // 7) % len(NULL_CFMTS)])
+                    elif sel == 3:
+                        case = mkcase(v, opts, syntax='epfs', quote=True, var_prefix=True,
+                                      form=('name', 'expr')[i % 2], cfmt=NULL_CFMTS[(i // 7) % len(NULL_CFMTS)])
+                    elif sel == 4:
+                        case = mkcase(v, opts, quote=True, name_attr=True)
+                    else:
+                        case = mkcase(v, opts, quote=True)
+                    env.evaluate(case, 'nulltower')
+                    ctx.table('null tower: ' + group, kind_of(v))
+            # valueless null (the entity spelling &dtml.null-x; and the tag spelling): a non-null value
+            # still goes through the pipeline; the replacement text of a null one is not stated
+            for extra in ([], [('upper', None)], [('html_quote', None), ('spacify', None)]):
+                i += 1
+                if i % ctx.nshards != ctx.shard:
+                    continue
+                opts = [('null', None)] + extra
+                env.evaluate(mkcase(v, opts, syntax='ent'), 'nulltower-valueless')
+                env.evaluate(mkcase(v, opts[::-1], syntax=('dtml', 'ssi', 'epfs')[i % 3]), 'nulltower-valueless')
+
+
+# ---- option count: tags with no, one or two options, in every spelling, under every C format
+FEW_UNIVERSE = U.MODS + ('fmt', 'null', 'missing', 'size', 'etc', 'url')
+FEW_TEXT = {'null': 'N', 'missing': 'M', 'size': '5', 'etc': '~'}
+# fmt= texts per value kind: a method of the value, a named special format, a %-format
+FEW_FMT = {'int': ['__abs__', 'whole-dollars', '%05d'], 'float': ['__abs__', 'dollars-and-cents', '%.2f'],
+           'str': ['strip', 'url-quote', '%6s|'], 'decimal': ['copy_abs', 'comma-numeric', '%.1f'],
+           'obj': ['amount', 'collection-length', 'v=%s'], 'none': ['%s', 'collection-length', '__repr__'],
+           'bool': ['__abs__', 'comma-numeric', '%d'], 'fraction': ['__abs__', 'comma-numeric', '%.3f'],
+           'intsub': ['__abs__', 'dollars-with-commas', '%x'], 'undefined': ['strip', 'url-quote', '%s']}
+FEW_VALUES = [['float', 3.14159], ['int', 42], ['str', 'a<b_C &d%41'], ['int', 255], ['float', -1234567.891],
+              ['decimal', '1234.50'], ['obj'], ['none'], ['str', ''], ['int', 0], ['fraction', [7, 2]],
+              ['str', '1234567'], ['bool', True], ['intsub', 7]]
+HTML_SPELLINGS = [dict(syntax='dtml'), dict(syntax='ssi'), dict(syntax='ent'), dict(syntax='dtml', name_attr=True),
+                  dict(syntax='dtml', form='expr'), dict(syntax='dtml', form='expr', bare_expr=True),
+                  dict(syntax='ssi', form='expr'), dict(syntax='ssi', name_attr=True)]
+EPFS_SPELLINGS = [dict(), dict(var_prefix=True), dict(var_prefix=True, form='expr'),
+                  dict(var_prefix=True, name_attr=True)]
+
+
+def few_opts(names, v, fi=0):
+    kind = kind_of(v)
+    if 'url' in names and kind not in ('obj', 'falsy'):
+        return None
+    out = []
+    for n in names:
+        if n in U.MODS or n == 'url':
+            out.append((n, None))
+        elif n == 'fmt':
+            if kind not in FEW_FMT:
+                return None
+            out.append((n, FEW_FMT[kind][fi % len(FEW_FMT[kind])]))
+        else:
+            out.append((n, FEW_TEXT[n]))
+    return out
+
+
+def part_optcount(env):
+    """The number of options must not select another pipeline: every option set of size 0, 1 and 2 over
+    the 12 modifiers, fmt=, null=, missing=, size=, etc= and url, in both written orders, under EVERY C
+    format of the EPFS syntax (plain, %(var name ...)F, %(var expr=...)F, %(var name=...)F) and in every
+    HTML spelling (dtml / ssi / entity; name, name=, expr=, bare "expr")."""
+    ctx = env.ctx
+    sets = [()] + [(a,) for a in FEW_UNIVERSE] + list(itertools.permutations(FEW_UNIVERSE, 2))
+    quick = ctx.tier == 'quick'
+    i = 0
+    for si, names in enumerate(sets):
+        vals = FEW_VALUES + ([['undefined']] if 'missing' in names else [])
+        small = len(names) <= 1
+        nf = 3 if 'fmt' in names else 1
+        for vi, (v, fi) in enumerate(itertools.product(vals, range(nf))):
+            if quick and not small and nf > 1 and (vi + si) % 3:
+                continue
+            opts = few_opts(names, v, fi)
+            if opts is None:
+                continue
+            for ci, cf in enumerate(CFMTS_ALL):
+                i += 1
+                if i % ctx.nshards != ctx.shard:
+                    continue
+                k = i // ctx.nshards
+                if quick and not small and (k + si) % 6:
+                    continue
+                spell = EPFS_SPELLINGS if (small and not quick) else [EPFS_SPELLINGS[(k + ci) % len(EPFS_SPELLINGS)]]
+                if small and quick:
+                    spell = [EPFS_SPELLINGS[0], EPFS_SPELLINGS[1 + (k + ci) % (len(EPFS_SPELLINGS) - 1)]]
+                for sp in spell:
+                    env.evaluate(mkcase(v, opts, syntax='epfs', cfmt=cf, quote=bool(k % 2), **sp), 'optcount-cformat')
+                    ctx.table('option count x C format', '%d option(s), %%%s' % (len(names), cf))
+            i += 1
+            if i % ctx.nshards != ctx.shard:
+                continue
+            k = i // ctx.nshards
+            spell = HTML_SPELLINGS if (small or not quick) else [HTML_SPELLINGS[(k + vi) % len(HTML_SPELLINGS)]]
+            for sp in spell:
+                env.evaluate(mkcase(v, opts, quote=bool(k % 2), **sp), 'optcount-html')
+                ctx.table('option count x HTML spelling', '%d option(s)' % len(names))
+    # the two documented fast forms (bare tag, html_quote alone) on EVERY pool value in every spelling
+    for vi, v in enumerate(VALUES):
+        if vi % ctx.nshards != ctx.shard:
+            continue
+        for opts in ([], [('html_quote', None)]):
+            for sp in HTML_SPELLINGS:
+                env.evaluate(mkcase(v, opts, **sp), 'fastform')
+            for j, sp in enumerate(EPFS_SPELLINGS):
+                for cf in ('s', CFMTS_ALL[1 + (vi + j) % (len(CFMTS_ALL) - 1)]):
+                    env.evaluate(mkcase(v, opts, syntax='epfs', cfmt=cf, **sp), 'fastform')
+            ctx.count('fastform:values x spellings')
 
 
 def part_laws(env):
@@ -945,8 +1154,8 @@ def part_random(env):
         ctx.count('random:cases')
 
 
-PARTS = [part_pairs, part_subsets, part_orders, part_fmt, part_size, part_nullmissing, part_laws, part_url,
-         part_random]
+PARTS = [part_pairs, part_subsets, part_orders, part_fmt, part_size, part_nullmissing, part_nulltower,
+         part_optcount, part_laws, part_url, part_random]
 
 
 def watch_anchors(reach):
@@ -1004,7 +1213,9 @@ def finish(agg):
               'law:roundtrip evaluations', 'sql_quote:postcondition_evaluations',
               'sql_quote:final-output law evaluations', 'replacement:missing', 'replacement:null',
               'judged:size', 'judged:fmt', 'judged:cformat', 'judged:fmt+cformat', 'judged:url',
-              'judged:random', 'model:self-check evaluations'):
+              'judged:random', 'model:self-check evaluations',
+              'judged:nulltower', 'judged:nulltower-valueless', 'judged:missing-unused-false',
+              'judged:optcount-cformat', 'judged:optcount-html', 'judged:fastform'):
         if not c.get(k):
             inc.append('deciding monitor never evaluated: ' + k)
     for r in ('Var.__init__', 'Var.render', 'DT_Var.url_quote', 'DT_Var.url_quote_plus',
@@ -1019,6 +1230,16 @@ def finish(agg):
                 'last blank exactly at index size/2'):
         if not t.get('truncation', {}).get(rel):
             inc.append('truncation relation never exercised: ' + rel)
+    for group, vals in (('zero', ZEROS), ('null', NULLS), ('non-null', NONNULL)):
+        for v in vals:
+            if not t.get('null tower: ' + group, {}).get(kind_of(v)):
+                inc.append('null= never rendered on a %s value of kind %s' % (group, kind_of(v)))
+    for n in (0, 1, 2):
+        for cf in CFMTS_ALL:
+            if not t.get('option count x C format', {}).get('%d option(s), %%%s' % (n, cf)):
+                inc.append('C format %%%s never rendered on a tag with %d option(s)' % (cf, n))
+        if not t.get('option count x HTML spelling', {}).get('%d option(s)' % n):
+            inc.append('HTML spellings never rendered on a tag with %d option(s)' % n)
     for m in U.MODS + ('fmt', 'null', 'missing', 'size', 'etc', 'url'):
         if not t.get('option', {}).get(m):
             inc.append('option never exercised: ' + m)
